@@ -76,7 +76,17 @@ func Load(dir string, cfg Config) (*Prog, error) {
 		cur := pkgs
 		for round := 0; round < 6; round++ {
 			next, notes, gone := inl.Normalize(cur, abs, ModPath, overlay)
-			normNotes = notes
+			for _, nt := range notes {
+				dup := false
+				for _, o := range normNotes {
+					if o == nt {
+						dup = true
+					}
+				}
+				if !dup {
+					normNotes = append(normNotes, nt)
+				}
+			}
 			if next == nil {
 				inlined = gone
 				break
